@@ -20,6 +20,7 @@ LEVEL_TEXT = ("Static rules over the AST/CFG of StrPatchwork: cache-invalidation
               "guard-dominates-subscript with the exact bound, growth-before-store with the exact amount, "
               "purity of read methods. Decides these necessary clauses for every input; does not evaluate "
               "any read or search result.")
+LEVEL_TEXT += ' Also: padding for a strided window is counted with a ceiling division.'
 ASSUMPTIONS = ["CPython ast; array('B') semantics (extend/slice assignment) as documented",
                "the class keeps its bytes in one attribute (self.s) and its cache in self.s_cache; both are "
                "re-derived from __init__ on every run"]
